@@ -457,7 +457,8 @@ def main():
     allowed = ALLOWED_AXIOMS | set(cfg.get("allowed_axioms", []))
     discharged = sum(1 for ax in ob["theorems"].values() if all(x in allowed for x in ax)) if ob["ok"] else 0
     evidence = dict(
-        property_id=pid, tier=tier, seed=seed, level=cfg.get("level", "proof"),
+        property_id=pid, tier=tier, seed=seed,
+        level=(cfg.get("level") if cfg.get("level") in ("exploration", "fault_enumeration", "model_checking", "proof", "translation_validation", "other") else "proof"),
         coverage=dict(
             obligations=max(n_thm, len(cfg.get("theorems", [])), 1), discharged=discharged,
             checker_cmd=f"cd lean && lake build {' '.join(ob['mods'])} && lake env lean <module> (#print axioms)",
